@@ -28,8 +28,12 @@ def run(ctx):
     _storage.model_check(ctx)
     tot = _storage.run_sweep(ctx, ctx.pick(18, 96), ctx.pick(120, 2000), ["process", "synced", "mid"], gen2=ctx.pick(1, 4))
     # the live store while checkpoints are taken next to the background flush / compaction (public API only)
-    from checks import c14
+    from checks import c14, _ckptcut
     c14.ckpt_race(ctx, "C07")
+    # one flusher per immutable memtable (spec/background/FlushQueue.tla; pinned variant as teeth), enforced on the real
+    # engine with the flush task held at flush.written while create_checkpoint() runs
+    _ckptcut.flush_queue(ctx)
+    _ckptcut.flush_gate(ctx)
     ctx.cov["evaluations"] = tot["images"] + tot["gen2_images"]
     ctx.cov["distinct_nontrivial"] = tot["images"]
     ctx.cov["rule"] = ("one evaluation = one (workload, crash instant, crash model) image reopened by the real recovery code; "
@@ -37,7 +41,10 @@ def run(ctx):
 
 
 def replay(ctx, doc):
-    if doc["replay"].get("driver") == "ckpt_race":
+    if doc["replay"].get("driver") == "ckpt_flush_gate":
+        from checks import _ckptcut
+        _ckptcut.flush_gate(ctx)
+    elif doc["replay"].get("driver") == "ckpt_race":
         from checks import c14
         c14.ckpt_race(ctx, "C07")
     else:
